@@ -18,10 +18,14 @@ def rule_fixup_siblings(ctx):
     blocks = {}
     for ifs in walk(cfront.body(fn)):
         if ifs.get('kind') == 'IfStmt':
-            c = render(ifs['inner'][0]).replace(' ', '')
-            m = re.match(r'^\(outcome&(\d)\)$', c)
+            # `if (outcome & k)`, also spelled `(outcome & k) != 0`: normal form of the condition
+            from .. import normal
+            c = render(normal.norm_cond(ifs['inner'][0])).replace(' ', '')
+            while c.startswith('((') and c.endswith('))'):
+                c = c[1:-1]
+            m = re.match(r'^\(?(\w+)&(\d)\)?$', c)
             if m:
-                blocks[int(m.group(1))] = ifs['inner'][1]
+                blocks[int(m.group(2))] = ifs['inner'][1]
     anchor(1 in blocks and 2 in blocks, 'reb_collision_search: "if (outcome & 1)" and "if (outcome & 2)" fix-up blocks')
     a = sibling.flat(blocks[1], [(r'\bc\.p1\b', 'c.REMOVED'), (r'\bremovedp1\b', 'removed')])
     b = sibling.flat(blocks[2], [(r'\bc\.p2\b', 'c.REMOVED'), (r'\bremovedp2\b', 'removed')])
